@@ -103,6 +103,7 @@ var f4Specials = []uint32{
 	0x00800000, 0x80800000, // smallest normal
 	0x7F7FFFFF, 0xFF7FFFFF, // +-max
 	0x3F800000, 0xBF800000, 0x3DCCCCCD, 0x40490FDB, 0x4B800000, 0x4B7FFFFF,
+	0x5F000000, 0x5F7FFFFF, 0x5F800000, 0xDF000000, 0x5EFFFFFF, 0x4F000000, 0x4F800000, // 2^63, just below 2^64, 2^64, -2^63, below 2^63, 2^31, 2^32: integer-type borders
 }
 
 var f8Specials = []uint64{
@@ -111,6 +112,7 @@ var f8Specials = []uint64{
 	0x0010000000000000, 0x7FEFFFFFFFFFFFFF, 0xFFEFFFFFFFFFFFFF,
 	0x3FF0000000000000, 0x3FB999999999999A, 0x400921FB54442D18, 0x4340000000000000, 0x433FFFFFFFFFFFFF,
 	0x47EFFFFFE0000000, 0x36A0000000000000, // float32 max and min subnormal as float64
+	0x43E0000000000000, 0x43EFFFFFFFFFFFFF, 0x43F0000000000000, 0xC3E0000000000000, 0x43DFFFFFFFFFFFFF, 0x41E0000000000000, 0x41F0000000000000, // 2^63, just below 2^64, 2^64, -2^63, below 2^63, 2^31, 2^32
 }
 
 func genElem(t *rapid.T, kind string) model.Elem {
@@ -275,6 +277,27 @@ func genTree(t *rapid.T, o treeOpts, nm *namer) *model.Node {
 			leaf = &model.Node{Kind: model.L, Children: []model.Child{{Node: leaf}}}
 		}
 		return leaf
+	}
+	if o.Vars && rapid.IntRange(0, 39).Draw(t, "nestedVars") == 39 {
+		// variables below many list levels (5-24): every level holds the nested list and, sometimes, a sibling
+		// item or an item variable of its own
+		d := rapid.IntRange(5, 24).Draw(t, "varDepth")
+		cur := &model.Node{Kind: model.L, Children: []model.Child{{Var: nm.draw(t)}, {Node: g.leaf(t)}}}
+		for i := 0; i < d; i++ {
+			lvl := &model.Node{Kind: model.L}
+			switch rapid.IntRange(0, 3).Draw(t, "levelShape") {
+			case 0:
+				lvl.Children = []model.Child{{Node: cur}}
+			case 1:
+				lvl.Children = []model.Child{{Node: g.leaf(t)}, {Node: cur}}
+			case 2:
+				lvl.Children = []model.Child{{Node: cur}, {Var: nm.draw(t)}}
+			default:
+				lvl.Children = []model.Child{{Node: cur}, {Node: g.leaf(t)}}
+			}
+			cur = lvl
+		}
+		return cur
 	}
 	if o.Ellipsis && rapid.IntRange(0, 39).Draw(t, "manyEllipses") == 39 {
 		// more than ten ellipses in one tree: their numbering gets a second digit
